@@ -119,6 +119,16 @@ Theorem C02_monitor_every_history : forall is_space ops w,
 Proof. exact run_gated_ok. Qed.
 Print Assumptions C02_monitor_every_history.
 
+(** the literals of handshake.go that [gate]'s call sites, [almost_full] and the miss path of
+    [get_cert] were modelled after are the ones in the source today (read by the translator on every
+    run; a change breaks this proof) *)
+Theorem C02_source_shape_is_the_modelled_one :
+  hs_gate_require_args = [[false]; [true]; [true]] /\
+  (hs_almost_full_num = 9 /\ hs_almost_full_den = 10)%nat /\
+  hs_no_obtain_after_maintenance_error = true.
+Proof. exact source_shape. Qed.
+Print Assumptions C02_source_shape_is_the_modelled_one.
+
 (** non-vacuity: concrete worlds in which the hypotheses hold and the gated effects occur *)
 Definition ex_name : name := [102; 111; 111; 46; 101; 120].   (* "foo.ex" *)
 Definition ex_sp := tbl_space [].
@@ -155,5 +165,18 @@ Example C02_ex_vanish_od_off :
   let fill := map (fun i => Cert i [[120]] false false false false false None) [2;3;4;5;6;7;8;9;10] in
   let w := World None 10 fill [(ex_name, c)] 0 11 in
   let '(own, kids, res, _) := handshake ex_sp w (Hello (Some ex_name) None true true) in
-  (own, kids, res) = ([ELoad ex_name; EExists ex_name; EEvict 1], [], REmpty).
+  (own, kids, res) = ([ELoad ex_name; EExists ex_name; EEvict 1], [], RErr 4).
+Proof. vm_compute. reflexivity. Qed.
+
+(** the witness of finding C13-maintenance-failure-obtain (fixed), seen from C02: an expired
+    certificate is in storage only, the decision function says yes at the first evaluation (cache
+    miss) and no at the second (the renewal gate): the certificate is evicted, the handshake fails,
+    and nothing is loaded or issued after the denial (before the fix the handshake went on to
+    obtainOnDemandCertificate and read the bundle again) *)
+Example C02_ex_loaded_expired_then_denied :
+  let c := Cert 1 [ex_name] true true true false false None in
+  let w := World (Some (PDecision (fun k _ => Nat.eqb k 0))) 0 [] [(ex_name, c)] 0 2 in
+  let '(own, kids, res, w') := handshake ex_sp w (Hello (Some ex_name) None true false) in
+  (own, kids, res, w_cache w') =
+    ([EDecision ex_name true; ELoad ex_name; EExists ex_name; EDecision ex_name false; EEvict 1], [], RErr 4, []).
 Proof. vm_compute. reflexivity. Qed.
